@@ -184,6 +184,13 @@ Definition src_op (c : pcfg) (ticks : list N) (k : mkind) (st : nat)
 
 Inductive step :=
 | SSrc (k : mkind) (st : nat) (args : bool)  (* source.Add1 / Remove1 *)
+| SChk (k : mkind) (st : nat)                (* source.CanAdd1 / CanRemove1: negotiation handlers only *)
+| SVeto (how : bool) (k : mkind) (st : nat) (args : bool)
+    (* source.Add1 / Remove1 vetoed by a handler bound AFTER the pipe:
+       how = false: the state's own Enter / Exit handler, true: AnyEnter *)
+| SBar (veto : bool)
+    (* source.Add1(Bar), Bar = {Remove: [state 0]}, then Remove1(Bar);
+       veto: BarEnter says no (after state 0's Exit handlers ran) *)
 | SDel (i : nat)                             (* the i-th in-flight forked call reaches the target *)
 | SRel                                       (* the held target transition goes on *)
 | SHold.                                     (* third-party mutation on the idle target, held *)
@@ -197,11 +204,14 @@ Record cfg := {
   c_tgt : tgt;
   c_bag : list mut;           (* in-flight forked calls, oldest first *)
   c_blocked : bool;           (* the source's handler is stuck inside the target *)
-  c_srclog : list N;          (* per SSrc: 0 done, 3 done only after SRel, 9 not issued (source stuck) *)
+  c_srclog : list N;          (* per source call: 0 done, 3 done only after SRel,
+                                 4 canceled by the scripted veto, 9 not issued (source stuck) *)
   c_dellog : list (N * N);    (* per call that reached the target: (mut_code, result class) *)
   c_reord : bool;             (* a call overtook an older call for the same state *)
   c_busydel : bool;           (* a call (or a flat skip test) met a busy target *)
-  c_lossy : bool * bool       (* a call was dropped by (lossy_early, lossy_dup) *)
+  c_lossy : bool * bool;      (* a call was dropped by (lossy_early, lossy_dup) *)
+  c_evlog : list N;           (* per source call: pipe handlers invoked *)
+  c_vetoed : bool             (* the history contains a check or a vetoed mutation *)
 }.
 
 Definition init_tgt (n : nat) : tgt :=
@@ -211,7 +221,7 @@ Definition init_tgt (n : nat) : tgt :=
 Definition init (c : pcfg) : cfg :=
   {| c_src := repeat 0%N (p_n c); c_tgt := init_tgt (p_n c); c_bag := [];
      c_blocked := false; c_srclog := []; c_dellog := []; c_reord := false;
-     c_busydel := false; c_lossy := (false, false) |}.
+     c_busydel := false; c_lossy := (false, false); c_evlog := []; c_vetoed := false |}.
 
 Fixpoint remove_nth {A} (i : nat) (l : list A) : list A :=
   match l, i with
@@ -226,49 +236,90 @@ Definition older_same (bag : list mut) (i : nat) (m : mut) : bool :=
 Definition set_tgt (s : cfg) (t : tgt) : cfg :=
   {| c_src := c_src s; c_tgt := t; c_bag := c_bag s; c_blocked := c_blocked s;
      c_srclog := c_srclog s; c_dellog := c_dellog s; c_reord := c_reord s;
-     c_busydel := c_busydel s; c_lossy := c_lossy s |}.
+     c_busydel := c_busydel s; c_lossy := c_lossy s; c_evlog := c_evlog s;
+     c_vetoed := c_vetoed s |}.
+
+(* a source call that changes nothing and fires no pipe handler: not issued
+   (code 9), a check (0), a vetoed mutation (4) *)
+Definition log_only (s : cfg) (code : N) : cfg :=
+  {| c_src := c_src s; c_tgt := c_tgt s; c_bag := c_bag s; c_blocked := c_blocked s;
+     c_srclog := c_srclog s ++ [code]; c_dellog := c_dellog s; c_reord := c_reord s;
+     c_busydel := c_busydel s; c_lossy := c_lossy s; c_evlog := c_evlog s ++ [0%N];
+     c_vetoed := c_vetoed s |}.
+
+Definition mark (s : cfg) : cfg :=
+  {| c_src := c_src s; c_tgt := c_tgt s; c_bag := c_bag s; c_blocked := c_blocked s;
+     c_srclog := c_srclog s; c_dellog := c_dellog s; c_reord := c_reord s;
+     c_busydel := c_busydel s; c_lossy := c_lossy s; c_evlog := c_evlog s;
+     c_vetoed := true |}.
+
+(* an accepted, applied source mutation: only a transition that flips the
+   piped state (or re-adds a Multi one) fires a pipe handler *)
+Definition src_call (c : pcfg) (s : cfg) (k : mkind) (i : nat) (args : bool) : cfg :=
+  let '(src', ev) := src_op c (c_src s) k i in
+  match ev with
+  | None =>
+    {| c_src := src'; c_tgt := c_tgt s; c_bag := c_bag s; c_blocked := false;
+       c_srclog := c_srclog s ++ [0%N]; c_dellog := c_dellog s;
+       c_reord := c_reord s; c_busydel := c_busydel s; c_lossy := c_lossy s;
+       c_evlog := c_evlog s ++ [0%N]; c_vetoed := c_vetoed s |}
+  | Some ek =>
+    if p_flat c then
+      (* flat: skip on the target's current state, else a synchronous,
+         argument-less call inside the source's final handler *)
+      let t := c_tgt s in
+      let skip := match ek with
+                  | MAdd => act (t_ticks t) i
+                  | MRem => negb (act (t_ticks t) i)
+                  end in
+      if skip
+      then {| c_src := src'; c_tgt := t; c_bag := c_bag s; c_blocked := false;
+              c_srclog := c_srclog s ++ [0%N]; c_dellog := c_dellog s;
+              c_reord := c_reord s; c_busydel := c_busydel s || t_busy t;
+              c_lossy := c_lossy s; c_evlog := c_evlog s ++ [1%N];
+              c_vetoed := c_vetoed s |}
+      else
+        let m := {| m_kind := ek; m_st := i; m_args := false |} in
+        let '(t', r) := deliver c t m in
+        let stuck := negb (t_busy t) && t_busy t' in
+        {| c_src := src'; c_tgt := t'; c_bag := c_bag s; c_blocked := stuck;
+           c_srclog := c_srclog s ++ [if stuck then 3%N else 0%N];
+           c_dellog := c_dellog s ++ [(mut_code m, r)];
+           c_reord := c_reord s; c_busydel := c_busydel s || t_busy t;
+           c_lossy := c_lossy s; c_evlog := c_evlog s ++ [1%N];
+           c_vetoed := c_vetoed s |}
+    else
+      {| c_src := src'; c_tgt := c_tgt s;
+         c_bag := c_bag s ++ [{| m_kind := ek; m_st := i; m_args := args |}];
+         c_blocked := false; c_srclog := c_srclog s ++ [0%N];
+         c_dellog := c_dellog s; c_reord := c_reord s; c_busydel := c_busydel s;
+         c_lossy := c_lossy s; c_evlog := c_evlog s ++ [1%N];
+         c_vetoed := c_vetoed s |}
+  end.
+
+(* does the vetoing handler run at all?  The state's own Enter handler runs
+   when the state is entered (or a Multi state re-added), its Exit handler
+   when it is about to be left; AnyEnter runs in every transition *)
+Definition veto_hits (c : pcfg) (s : cfg) (how : bool) (k : mkind) (i : nat) : bool :=
+  how || match k with
+         | MAdd => negb (act (c_src s) i) || is_multi (p_multiS c) i
+         | MRem => act (c_src s) i
+         end.
 
 Definition exec_step (c : pcfg) (s : cfg) (st : step) : cfg :=
   match st with
   | SSrc k i args =>
-    if c_blocked s
-    then {| c_src := c_src s; c_tgt := c_tgt s; c_bag := c_bag s; c_blocked := true;
-            c_srclog := c_srclog s ++ [9%N]; c_dellog := c_dellog s;
-            c_reord := c_reord s; c_busydel := c_busydel s; c_lossy := c_lossy s |}
-    else
-      let '(src', ev) := src_op c (c_src s) k i in
-      match ev with
-      | None =>
-        {| c_src := src'; c_tgt := c_tgt s; c_bag := c_bag s; c_blocked := false;
-           c_srclog := c_srclog s ++ [0%N]; c_dellog := c_dellog s;
-           c_reord := c_reord s; c_busydel := c_busydel s; c_lossy := c_lossy s |}
-      | Some ek =>
-        if p_flat c then
-          (* flat: skip on the target's current state, else a synchronous,
-             argument-less call inside the source's final handler *)
-          let t := c_tgt s in
-          let skip := match ek with
-                      | MAdd => act (t_ticks t) i
-                      | MRem => negb (act (t_ticks t) i)
-                      end in
-          if skip
-          then {| c_src := src'; c_tgt := t; c_bag := c_bag s; c_blocked := false;
-                  c_srclog := c_srclog s ++ [0%N]; c_dellog := c_dellog s;
-                  c_reord := c_reord s; c_busydel := c_busydel s || t_busy t; c_lossy := c_lossy s |}
-          else
-            let m := {| m_kind := ek; m_st := i; m_args := false |} in
-            let '(t', r) := deliver c t m in
-            let stuck := negb (t_busy t) && t_busy t' in
-            {| c_src := src'; c_tgt := t'; c_bag := c_bag s; c_blocked := stuck;
-               c_srclog := c_srclog s ++ [if stuck then 3%N else 0%N];
-               c_dellog := c_dellog s ++ [(mut_code m, r)];
-               c_reord := c_reord s; c_busydel := c_busydel s || t_busy t; c_lossy := c_lossy s |}
-        else
-          {| c_src := src'; c_tgt := c_tgt s;
-             c_bag := c_bag s ++ [{| m_kind := ek; m_st := i; m_args := args |}];
-             c_blocked := false; c_srclog := c_srclog s ++ [0%N];
-             c_dellog := c_dellog s; c_reord := c_reord s; c_busydel := c_busydel s; c_lossy := c_lossy s |}
-      end
+    if c_blocked s then log_only s 9 else src_call c s k i args
+  | SChk k i =>
+    if c_blocked s then log_only s 9 else mark (log_only s 0)
+  | SVeto how k i args =>
+    if c_blocked s then log_only s 9
+    else if veto_hits c s how k i then mark (log_only s 4)
+    else mark (src_call c s k i args)
+  | SBar veto =>
+    if c_blocked s then log_only s 9
+    else if veto then mark (log_only s 4)
+    else src_call c s MRem 0 false
   | SDel i =>
     match nth_error (c_bag s) i with
     | None => s
@@ -280,14 +331,16 @@ Definition exec_step (c : pcfg) (s : cfg) (st : step) : cfg :=
          c_reord := c_reord s || older_same (c_bag s) i m;
          c_busydel := c_busydel s || t_busy (c_tgt s);
          c_lossy := (fst (c_lossy s) || lossy_early (c_tgt s) m,
-                     snd (c_lossy s) || lossy_dup c (c_tgt s) m) |}
+                     snd (c_lossy s) || lossy_dup c (c_tgt s) m);
+         c_evlog := c_evlog s; c_vetoed := c_vetoed s |}
     end
   | SRel =>
     if t_busy (c_tgt s)
     then let t' := release c (c_tgt s) in
          {| c_src := c_src s; c_tgt := t'; c_bag := c_bag s;
             c_blocked := c_blocked s && t_busy t'; c_srclog := c_srclog s;
-            c_dellog := c_dellog s; c_reord := c_reord s; c_busydel := c_busydel s; c_lossy := c_lossy s |}
+            c_dellog := c_dellog s; c_reord := c_reord s; c_busydel := c_busydel s;
+            c_lossy := c_lossy s; c_evlog := c_evlog s; c_vetoed := c_vetoed s |}
     else s
   | SHold =>
     if t_busy (c_tgt s) then s else set_tgt s (hold (c_tgt s))
